@@ -67,6 +67,46 @@ Mix1dOK == (D = 1 /\ cls \in {"Dispersion", "HyperDiffusion", "KortewegDeVries"}
 \* every semi-linear class with an even-order-only linear part has a real symbol (ETDRK coefficients real)
 SemiRealOK == (cls \in SemiClasses \ {"KortewegDeVries"}) => PureReal(terms)
 
+\* C13: every specific class has the same symbol as the generic linear family with the documented coefficient list
+\* (isotropic scalar parameters, no spatial mixing; the zeroth-order generic coefficient enters as D * a_0)
+PV(name) == CASE name = "velocity" -> <<3, 2>> [] name = "diffusivity" -> <<1, 5>> [] name = "dispersivity" -> <<3, 7>>
+              [] name = "hyper_diffusivity" -> <<1, 11>> [] name = "second_order_scale" -> <<2, 3>> [] name = "fourth_order_scale" -> <<1, 7>>
+              [] name = "drag" -> <<-1, 3>> [] name = "reactivity" -> <<5, 4>> [] name = "first_order_coefficient" -> <<3, 4>>
+              [] name = "critical_number" -> <<1, 2>> [] name = "critical_number*critical_number" -> <<1, 4>> [] name = "one" -> QOne
+              [] name = "diffusivity*first_order_coefficient" -> <<3, 20>> [] name = "diffusivity*gamma" -> <<1, 35>>
+              [] name = "diffusivity_1" -> <<1, 5>> [] name = "diffusivity_2" -> <<1, 9>>
+ParSpecific(c) == IF c[1] = "diffusivity" /\ c[2] # c[3] THEN QZero ELSE PV(c[1])       \* isotropic: A = nu * Id
+QD == QInt(D)
+EquivList(c) ==
+    CASE c = "Advection"          -> << QZero, QNeg(PV("velocity")) >>
+      [] c = "Diffusion"          -> << QZero, QZero, PV("diffusivity") >>
+      [] c = "AdvectionDiffusion" -> << QZero, QNeg(PV("velocity")), PV("diffusivity") >>
+      [] c = "Dispersion"         -> << QZero, QZero, QZero, PV("dispersivity") >>
+      [] c = "HyperDiffusion"     -> << QZero, QZero, QZero, QZero, QNeg(PV("hyper_diffusivity")) >>
+      [] c = "Burgers"            -> << QZero, QZero, PV("diffusivity") >>
+      [] c = "KortewegDeVries"    -> << QZero, QZero, PV("diffusivity"), QNeg(PV("dispersivity")), QNeg(PV("hyper_diffusivity")) >>
+      [] c \in {"KuramotoSivashinsky", "KuramotoSivashinskyConservative"}
+                                  -> << QZero, QZero, QNeg(PV("second_order_scale")), QZero, QNeg(PV("fourth_order_scale")) >>
+      [] c = "NavierStokes"       -> << QDiv(PV("drag"), QD), QZero, PV("diffusivity") >>
+      [] c = "FisherKPP"          -> << QDiv(PV("reactivity"), QD), QZero, PV("diffusivity") >>
+      [] c = "AllenCahn"          -> << QDiv(PV("first_order_coefficient"), QD), QZero, PV("diffusivity") >>
+      [] c = "SwiftHohenberg"     -> << QSub(PV("reactivity"), PV("critical_number*critical_number")), QZero,
+                                        QMul(QInt(-2), PV("critical_number")), QZero, QInt(-1) >>
+HasEquiv(c, v, d) == /\ c \in {"Advection", "Diffusion", "AdvectionDiffusion", "Dispersion", "HyperDiffusion", "Burgers", "KortewegDeVries",
+                                 "KuramotoSivashinsky", "KuramotoSivashinskyConservative", "NavierStokes", "FisherKPP", "AllenCahn", "SwiftHohenberg"}
+                     /\ v = 0 /\ (c = "SwiftHohenberg" => d = 1)
+ParGeneric(lst) == [c \in {<<"a", j, 0>> : j \in 0..MaxJ} |-> IF c[2] + 1 <= Len(lst) THEN lst[c[2] + 1] ELSE QZero]
+EquivOK == HasEquiv(cls, mix, D) =>
+    \A ww \in {<<1, 1>>, <<2, 3>>} :
+        EvalTerms(terms, ParSpecific, ww) =
+        EvalTerms(GeneralLinearTerms(D, k, MaxJ), LAMBDA c : ParGeneric(EquivList(cls))[c], ww)
+\* C13: only the non-dimensional groups dt * a_j * w^j matter: (L, dt, a_j) -> (s L, t dt, a_j s^j / t) leaves dt * lambda unchanged
+GroupOK == (cls = "GeneralLinear") =>
+    LET a(c) == <<c[2] + 1, c[2] + 2>>                       \* some rational coefficient per order
+        sL == <<2, 1>>
+        sT == <<3, 1>>
+        a2(c) == QDiv(QMul(a(c), QPow(sL, c[2])), sT)
+    IN  CScale(<<1, 10>>, EvalTerms(terms, a, <<2, 3>>)) = CScale(QMul(sT, <<1, 10>>), EvalTerms(terms, a2, QDiv(<<2, 3>>, sL)))
 \* generic family: odd-order terms are purely imaginary (norm preserving), even-order terms purely real, at every index
 ParityOK == (cls \in {"GeneralLinear", "Derivative"}) =>
     \A tm \in terms : IF tm.w % 2 = 1 THEN QIsZero(tm.m.re) ELSE QIsZero(tm.m.im)
